@@ -130,6 +130,11 @@ func PlanFor(prop, tier string) (*Plan, error) {
 		deep := !quick
 		p.Monitors = func() []Monitor { return []Monitor{NewC15(deep)} }
 		p.Rule = "at every distinct module state of the multi-auction, early-release batch and fixed lifecycle scenarios: ExportGenesis -> JSON -> Validate; wipe the module store on a branch and InitGenesis; compare auctions, bids, allow-lists, instalments, counters and params byte by byte; then run original and re-imported branch in lock-step over every single op of the scenario menu, every pair (thorough: triple) of later block instants and bid-then-block sequences, comparing decisions, the seven collections and balances after every step; non-trivial = distinct exported states holding at least one auction"
+	case "C10":
+		p.Scenarios = []*Scenario{S1a(tier, true).withMsgAddAllow(), S2a(tier, false).withMsgAddAllow(), S3(tier, false).withMsgAddAllow()}
+		p.Monitors = func() []Monitor { return []Monitor{NewC10()} }
+		p.Rule = "in every explored state MsgAddAllowedBidder{auction, bidder = signer, max} is delivered through the application's message router for every auction and every bidder incl. an outsider; it must be rejected and the allow-list must be byte-identical afterwards; no other message may change the allow-list; every accepted bid's signer is on the list in the pre-state and every stored bid's bidder is listed in every state; non-trivial = distinct (auction status, listed?, signer, state) deliveries. The process links the application like cmd/fundraisingd does (it imports app, nothing from testutil / simulation)."
+		p.Post = c10Binary
 	case "C07":
 		p.Scenarios = []*Scenario{S3(tier, false), S1a(tier, true), S2a(tier, false)}
 		if !quick {
@@ -152,3 +157,6 @@ func moneyScenarios(tier string) []*Scenario {
 	}
 	return out
 }
+
+// c10Binary is filled by binary.go (outside view of the switch through the built node binary).
+var c10Binary func(p *Plan, o ExecOpts, rs []*RunResult, ev *Evidence) ([]Violation, error)
